@@ -121,6 +121,26 @@ CHECKS = {
         design_ref="DESIGN.md §2 C17",
         note="Trusted: X25519/ChaCha20-Poly1305/ed25519/BLS primitives; in-memory pipes, not kernel TCP; attacker strategies are the scripted families.",
     ),
+    "C07": dict(
+        engine="E-NODE",
+        category="fault_enumeration",
+        technique="runtime monitor with fault injection at the block boundary: version / full state dump / last indexed block of a full node compared before and after every proposal or certified block that must be rejected, then differential comparison with a clean twin node",
+        text="Two full nodes on one prefix. Node X is offered, at every height, ~12 deviations of the honest proposal (failing transaction inserted, transaction removed / reordered, "
+             "state root / total / parent / next-validator-root changed, last certificate payload or signature changed, reward percent / slash recipients / retired flag changed) first through "
+             "ValidateProposal (+ResetFSM as RoundInterrupt does) and then as a fully certified peer block; nothing may change. The honest block (built from a mempool where transactions that "
+             "fail after fee deduction or inside handlers sit among successful ones on the same 5 accounts) must then be accepted and X must equal the clean node byte for byte.",
+        design_ref="DESIGN.md §2 C07",
+        note="Failures inside certificate-result transactions of a nested chain are driven by C20's workload. Crash atomicity is C09.",
+    ),
+    "C11": dict(
+        engine="E-NODE",
+        category="exploration",
+        technique="differential runtime monitor: honest proposals validated by a peer node; archive-served blocks re-validated on two fresh nodes (full certificate checks / sync path) with hash, state-root and state-dump equality",
+        text="Seeded chains on two full nodes with alternating proposers; the mempool receives valid, failing, oversize (2.5 kB block limit), duplicate and same-content re-encoded "
+             "transactions; every proposal must be accepted by the peer. Afterwards every height is served by LoadCertificate and re-validated on fresh nodes from genesis.",
+        design_ref="DESIGN.md §2 C11",
+        note="Both nodes are in the same governance mode. Process-wide caches are purged when control passes between nodes of one test binary.",
+    ),
     "C08": dict(
         engine="E-STORE",
         category="exploration",
